@@ -25,7 +25,9 @@ func H_C08_Leave() {
 	m.encodeBroadcastNotify(vSelf, aliveMsg, &alive{Incarnation: selfInc, Node: vSelf}, nil)
 	vAssert(m.broadcasts.NumQueued() == 1, "c08.leave.pre-queued")
 
+	t0 := vNow()
 	err := m.Leave(20 * time.Millisecond)
+	vAssert(vNow().Sub(t0) <= 20*time.Millisecond, "c08.leave.never-blocks-past-timeout")
 	if hasPeer {
 		vAssert(err != nil, "c08.leave.times-out-without-gossip")
 	} else {
@@ -156,6 +158,7 @@ func H_C08_AddrTable() {
 
 func init() {
 	vRegister("H_C08_LeaveWindow", H_C08_LeaveWindow)
+	vRegister("H_C08_LeaveDelivers", H_C08_LeaveDelivers)
 }
 
 // C08, Leave racing an accusation. Leave raises its flag, reads the local incarnation under the node lock,
@@ -194,4 +197,46 @@ func H_C08_LeaveWindow() {
 		vAssert(!f.vIsMember(vSelf), "c08.window.not-listed")
 	}
 	vCover("c08.window")
+}
+
+// C08: Leave returns nil (with a live peer around) only after the departure has actually been handed to the
+// transport for a live peer; until then it keeps waiting, and it gives up with an error at its timeout.
+func H_C08_LeaveDelivers() {
+	conf := vBaseConfig()
+	conf.GossipNodes = 1
+	f := vNewML(conf)
+	m := f.m
+	selfInc := vU32()
+	vAssume(selfInc < 0xFFFFFFF0)
+	f.vAddSelf(selfInc, nil)
+	f.vAddConcreteAlive(vPeerA, 2).PMax = 2
+	rounds := vPick(6) // how many gossip rounds happen before the timeout
+	var res error
+	done := false
+	go func() { res = m.Leave(time.Second); done = true }()
+	vYield()
+	vAssert(!done, "c08.deliver.waits-for-gossip")
+	for i := 0; i < rounds && !done; i++ {
+		m.gossip()
+		vYield()
+	}
+	sentDepartures := 0
+	for i, pkt := range f.tr.packets {
+		var d dead
+		if len(pkt) > 0 && messageType(pkt[0]) == deadMsg && decode(pkt[1:], &d) == nil && d.Node == vSelf && d.From == vSelf {
+			vAssert(d.Incarnation == selfInc, "c08.deliver.incarnation")
+			vAssert(f.tr.to[i].Name == vPeerA, "c08.deliver.to-live-peer")
+			sentDepartures++
+		}
+	}
+	if done {
+		vAssert(res == nil, "c08.deliver.nil-when-notified")
+		vAssert(sentDepartures >= 1, "c08.deliver.nil-implies-sent-to-a-live-peer")
+		vCover("c08.deliver.sent")
+	} else {
+		vAdvance(time.Second)
+		vAssert(done && res != nil, "c08.deliver.gives-up-at-timeout")
+		vCover("c08.deliver.timeout")
+	}
+	vAssert(sentDepartures == rounds || done, "c08.deliver.every-round-gossips-it")
 }
